@@ -86,6 +86,15 @@ def factorings(base, rnd, limit):
             pat = copy.deepcopy(base)
             _set(pat, path, sub[0] + "@s1" + sub[-1:])
             out.append(("substring", [{"name": "@s1", "pattern": sub[1:-1]}], pat))
+    # (c1) a string macro at the very START / END of a longer name ("@arith" + "l", "j" + "@cc")
+    for path, sub in paths:
+        if path and isinstance(sub, str) and len(sub) >= 2 and "@" not in sub and not sub.startswith(("$", "&")):
+            pat = copy.deepcopy(base)
+            _set(pat, path, "@s1" + sub[-1:])
+            out.append(("substring_at_start", [{"name": "@s1", "pattern": sub[:-1]}], pat))
+            pat = copy.deepcopy(base)
+            _set(pat, path, sub[:1] + "@s1")
+            out.append(("substring_at_end", [{"name": "@s1", "pattern": sub[1:]}], pat))
     # (c2) the same string macro used TWICE inside one name
     for path, sub in paths:
         if path and isinstance(sub, str) and len(sub) >= 4:
@@ -206,7 +215,9 @@ def factorings(base, rnd, limit):
     rest = [o for o in out if o not in first]
     # prefer parameterised factorings whose argument is a non-string (YAML int) value
     rest.sort(key=lambda o: 0 if (o[0] == "param" and any(isinstance(v, int) and k != "@z1" for k, v in _dict_items(o[2]))) else 1)
-    return (first + rest)[:max(limit, len(first))]
+    # one candidate per (kind, site class) always; on top of that at least three further candidates, so that adding a kind
+    # never removes candidates that used to be selected
+    return (first + rest)[:max(limit, len(first) + 3)]
 
 
 def two_macro_variants(base, rnd):
